@@ -340,10 +340,19 @@ package sftp
 //@ func (*Client).Mkdir
 //@   property C20
 
+//@ ghost var hsVersion uint32
+//@ ghost var hsType uint32
+
 //@ func (*Client).recvVersion
 //@   property C20, C19
 //@   requires c.ext != nil && c.Reader != nil
 //@   requires c.alloc == nil || c.alloc.used != nil
+//@   update after call (*conn).recvPacket#1: ghost.hsType = uint32(ret0)
+//@   update after call unmarshalUint32Safe#1: ghost.hsVersion = ret0
+//@   loop 1 ghost hsVersion, hsType
+//@   loop 1 invariant ghost.hsVersion == 3 && ghost.hsType == sshFxpVersion && c.ext != nil
+//@   ensures result == nil ==> ghost.hsVersion == 3 && ghost.hsType == sshFxpVersion
+// (a session is established only if the peer's first packet is a VERSION packet carrying protocol version 3)
 
 //@ func (*File).readAt$2
 //@   property C20
@@ -858,7 +867,7 @@ package sftp
 //@   modifies nothing
 
 //@ func (*sshFxpExtendedPacket).readonly
-//@   property C09
+//@   property C09, C19
 //@   requires specOK(p)
 //@   ensures result <==> harmlessExt(p)
 //@   modifies nothing
